@@ -229,6 +229,8 @@ func C07(p *core.Program, r *core.Report) {
 	checkHandOverConfirmed(p, r)
 	checkRestClientLifeCycle(p, r)
 	checkAgentSocketWritesBounded(p, r)
+	// "once per accepted copy": local delivery, like forwarding, runs only under the bundle's dispatch reservation
+	checkDispatchExclusive(p, r)
 }
 
 // checkHandOverConfirmed: AgentManager.Deliver releases the bundle (removes LocalEndpoint, returns nil, which makes
@@ -674,7 +676,6 @@ func keysOf(m map[string]bool) []string {
 	return out
 }
 
-
 // checkDeliverGuard: AgentManager.Deliver hands the bundle to the mux only under AgentManager.HasEndpoint(destination)
 // - the test of the agents' registrations, not the broader Core.HasEndpoint (which is true for every endpoint of this
 // node) - and returns nil only after the hand-over. Shared by C07 and C15 ("delivered" is reported on that nil).
@@ -708,10 +709,11 @@ func checkDeliverGuard(p *core.Program, r *core.Report) {
 
 // checkRestClientLifeCycle (audit 4): "to no other client ... also while clients register, unregister or fetch
 // concurrently", "a REST client's fetches together return every bundle put into its mailbox exactly once".
-//  (a) a bundle is put into a mailbox only for a client that is still registered, tested under the mailbox mutex; the
-//      unregistration removes the client under the same mutex (otherwise a delivery in progress re-creates the mailbox
-//      of a client whose /unregister was already answered);
-//  (b) bundles taken out of a mailbox for a /fetch whose response could not be written are put back.
+//
+//	(a) a bundle is put into a mailbox only for a client that is still registered, tested under the mailbox mutex; the
+//	    unregistration removes the client under the same mutex (otherwise a delivery in progress re-creates the mailbox
+//	    of a client whose /unregister was already answered);
+//	(b) bundles taken out of a mailbox for a /fetch whose response could not be written are put back.
 func checkRestClientLifeCycle(p *core.Program, r *core.Report) {
 	const mtx = "pkg/agent.RestAgent.mailboxMutex"
 	isF := func(v ssa.Value, f string) bool { return core.IsField(v, agentPkg, "RestAgent", f) }
